@@ -163,6 +163,13 @@ def aba_histories(rng):
                  {'name': 'has', 'keys': ['k2', 'k3', 'k6']}, one('k5'), {'name': 'delete', 'keys': [second_gone]},
                  {'name': 'repack', 'mode': mode}, {'name': 'list'}, {'name': 'reopen'}, one('k7'), {'name': 'repack', 'mode': mode}]
         out.append(({'hash': 'sha256', 'prefix': 2, 'zlevel': 1, 'target': 1}, steps, f'gap;{first_gone};{second_gone};{mode}'))
+    # a pack whose objects are all compressed and whose stored lengths add up to exactly the sum of the sizes (k3, k6, k7
+    # grow by 9 + 11 + 8 bytes when deflated, k2 shrinks by 28): totals say nothing about the form of the single objects
+    for mode in ('NO', 'KEEP', 'AUTO'):
+        steps = [{'name': 'addpack', 'keys': ['k2', 'k3', 'k6', 'k7'], 'z': True, 'noholes': False, 'twice': True, 'via': 'bytes'},
+                 {'name': 'repack', 'mode': mode}, {'name': 'get', 'keys': ['k2', 'k3', 'k6', 'k7']},
+                 {'name': 'repack', 'mode': 'YES'}, {'name': 'repack', 'mode': 'NO'}, {'name': 'list'}]
+        out.append(({'hash': 'sha256', 'prefix': 2, 'zlevel': 6, 'target': 10 ** 9}, steps, f'gap;sums;{mode}'))
     # the temporary pack of an interrupted repack is in the way: refused, removed by the operator, repacked
     for mode in ('KEEP', 'YES'):
         steps = [{'name': 'addpack', 'keys': ['k2', 'k3', 'k5'], 'z': False, 'noholes': False, 'twice': True, 'via': 'bytes'},
